@@ -15,7 +15,7 @@ func init() {
 	register(&propDef{
 		id: "C05", level: "other", run: runC05,
 		trusted: []string{"encoding/xml (through NextPacket) delivers each complete top-level element once, in order (C02 decides the parser's own code)", "the Go scheduler eventually runs every started goroutine"},
-		explain: "Decides, per dynamic packet type, how many times the received value is handed to Router.route on every feasible path through one iteration of each receive loop (R1: exactly once for Message/Presence/*IQ — as a goroutine in the client, as a plain call, hence in arrival order, in the component — and the loop goes on); that every <r/> is answered exactly once before the next read (R2); that the optional unacknowledged-stanza queue, which is nil until stream management is enabled, is never dereferenced without a nil test on the path a server-sent <a/> takes (R4 — Engler's contradiction rule: all six queue methods test for nil, so every other dereference must too); and that no method with a value receiver mutates receiver state through a pointer-receiver helper, which silently acts on a copy (R6 — the websocket transport's Close/cleanup: a second Close closes the queue channel twice). Not decided: that encoding/xml delivers every complete element before a cut (trusted), scheduling of the per-packet goroutines, the io.Reader contract of WebsocketTransport.Read (returns len(data) rather than copy's result: unreachable through bufio.Reader+xml.Decoder, which only refills an empty 32 KiB buffer, and outside this property; dropped from the design).",
+		explain: "Decides, per dynamic packet type, how many times the received value is handed to Router.route on every feasible path through one iteration of each receive loop (R1: exactly once for Message/Presence/*IQ — as a goroutine in the client, as a plain call, hence in arrival order, in the component — and the loop goes on); that every <r/> is answered exactly once before the next read (R2); that the optional unacknowledged-stanza queue, which is nil until stream management is enabled, is never dereferenced without a nil test on the path a server-sent <a/> takes (R4 — Engler's contradiction rule: all six queue methods test for nil, so every other dereference must too); and that no method with a value receiver mutates receiver state through a pointer-receiver helper, which silently acts on a copy (R6 — the websocket transport's Close/cleanup: a second Close closes the queue channel twice). every Read method of the module honours the io.Reader bound n <= len(p) (R5 — a frame larger than the decoder's buffer must not overflow it). Not decided: that encoding/xml delivers every complete element before a cut (trusted), scheduling of the per-packet goroutines.",
 	})
 }
 
@@ -24,6 +24,7 @@ func runC05(w *World, r *Report, tier string) {
 	r.Rule("R2", "for SMRequest, every path that continues the client's loop passes exactly one synchronous Send of an SMAnswer; the request is never left unanswered")
 	r.Rule("R3", "non-stanza elements other than the stream close are routed at least once and never end the loop silently (SMAnswer reaches the queue logic through route)")
 	r.Rule("R4", "optional-pointer discipline: a value loaded from SMState.UnAckQueue is only dereferenced under a nil test, in the loading function and in every module callee it is passed to; the methods of *UnAckQueue start with the nil guard")
+	r.Rule("R5", "io.Reader contract: every Read(p []byte) (int, error) in the module returns as n the result of copy(p, …), the count of an inner Read/Write on (a sub-slice of) p, or 0 — never more than len(p)")
 	r.Rule("R6", "no value-receiver method calls, on its receiver copy, a pointer-receiver method that stores to the receiver's fields")
 
 	for _, spec := range []struct {
@@ -219,6 +220,73 @@ func runC05(w *World, r *Report, tier string) {
 		r.Undecided("R4", "xmpp.SMState.UnAckQueue#loads", "-", fmt.Sprintf("only %d loads of the queue pointer found, 3 confirmed by hand", nLoads))
 	}
 	r.Floor("R4", 4)
+
+	// ---- R5 io.Reader contract
+	nRead := 0
+	for _, f := range w.LibFuncs() {
+		if f.Name() != "Read" || f.Signature.Recv() == nil || f.Signature.Params().Len() != 1 || f.Signature.Results().Len() != 2 {
+			continue
+		}
+		if sl, ok := f.Signature.Params().At(0).Type().Underlying().(*types.Slice); !ok || !types.Identical(sl.Elem(), types.Typ[types.Byte]) {
+			continue
+		}
+		nRead++
+		p := f.Params[1]
+		bad := ""
+		onP := func(v ssa.Value) bool {
+			if v == ssa.Value(p) {
+				return true
+			}
+			if s, ok := v.(*ssa.Slice); ok && s.X == ssa.Value(p) {
+				return true
+			}
+			return false
+		}
+		var okVal func(v ssa.Value, depth int) bool
+		okVal = func(v ssa.Value, depth int) bool {
+			if depth > 6 {
+				return false
+			}
+			switch x := v.(type) {
+			case *ssa.Const:
+				k, isK := intConst(x)
+				return isK && k == 0
+			case *ssa.Call:
+				if w.callKey(x) == "builtin.copy" {
+					return onP(x.Call.Args[0])
+				}
+				if strings.HasSuffix(w.callKey(x), ".Read") && len(x.Call.Args) > 0 && onP(x.Call.Args[len(x.Call.Args)-1]) && x.Call.Signature().Results().Len() == 1 {
+					return true
+				}
+				return false
+			case *ssa.Extract:
+				if c, ok := x.Tuple.(*ssa.Call); ok && x.Index == 0 {
+					k := w.callKey(c)
+					if (strings.HasSuffix(k, ".Read") || strings.HasSuffix(k, ".Write")) && len(c.Call.Args) > 0 && onP(c.Call.Args[len(c.Call.Args)-1]) {
+						return true
+					}
+				}
+				return false
+			case *ssa.Phi:
+				for _, e := range x.Edges {
+					if !okVal(e, depth+1) {
+						return false
+					}
+				}
+				return true
+			}
+			return false
+		}
+		allInstrs(f, func(in ssa.Instruction) {
+			if rt, ok := in.(*ssa.Return); ok && !okVal(rt.Results[0], 0) {
+				bad = "Read returns " + w.nf(rt.Results[0], 0) + " as the number of bytes read (at " + w.ipos(rt) + "): that is not bounded by what was placed into p — a frame larger than the caller's buffer makes the caller (bufio / xml.Decoder) index out of range and the rest of the frame is lost"
+			}
+		})
+		r.Check(bad == "", "R5", w.funcKey(f), w.pos(f.Pos()), bad, "n is copy(p, …), an inner Read/Write count on p, or 0")
+	}
+	if nRead < 3 {
+		r.Undecided("R5", "module#Read-methods", "-", fmt.Sprintf("%d Read methods found, 3 confirmed by hand", nRead))
+	}
 
 	// ---- R6 value receivers losing updates
 	n6 := 0
